@@ -9,7 +9,7 @@ CONSTANTS NM, NP, MaxSlots, MaxLinks, MaxStep, Emit, Lists,
 VARIABLES w, step, hist        \* hist: the requests made so far (only when Emit), printed at the end of a simulated behaviour
 Init == w = InitW(NM, NP) /\ step = 0 /\ hist = <<>>
 FocusActs == [multictl |-> {"attach", "connect", "saveload", "set_map", "feed", "attach_none"},
-              patterns |-> {"attach", "attach_end", "attach_none", "attach_pattern", "saveload", "bulk_edit", "set_note_mod", "get_note_mod"}]
+              patterns |-> {"attach", "attach_end", "attach_none", "attach_pattern", "saveload", "bulk_edit", "set_note_mod", "set_note_num", "get_note_mod"}]
 Allowed(act) == IF Focus = "all" THEN TRUE ELSE act \in FocusActs[Focus]
 SumQ(q) == FoldLeft(LAMBDA a, x : a + x + 2, 0, q)
 HashW(x) == FoldLeft(LAMBDA a, m : a + m * SumQ(x.t[m].inl) + (m + 3) * SumQ(x.t[m].outs) + 5 * x.vol[m], 0, [m \in 1..NM |-> m])
@@ -50,6 +50,7 @@ Next ==
   \/ \E src \in Plain, dst \in Plain : src # dst /\ w.p.parent[dst] = 0 /\ Do("clone_module", <<src, dst>>, SysClone(w, src, dst))
   \* pattern 1 is a Pattern with a note cell; even pattern ids stand for PatternClone objects
   \/ \E q \in {1}, m \in Mods : Do("set_note_mod", <<q, m>>, Lift(w, SetNoteMod(w.p, q, m)))
+  \/ \E q \in {1}, n \in {32768, 65535} : Do("set_note_num", <<q, n>>, Lift(w, SetNoteNum(w.p, q, n)))
   \/ \E q \in {1} : Do("get_note_mod", <<q>>, Lift(w, GetNoteMod(w.p, q)))
 Bound == /\ \A P \in 1..2 : Len(w.p.slots[P]) <= MaxSlots /\ Len(w.p.pats[P]) <= 2
          /\ \A m \in Mods : Len(w.t[m].inl) <= MaxLinks /\ Len(w.t[m].outl) <= MaxLinks
